@@ -34,6 +34,10 @@ pub fn configs(tier: Tier) -> Vec<OutCfg> {
             sets.push(vec![st(0, 1), SK::Sub]);
             sets.push(vec![SK::SubBig, st(1, 1)]);
             sets.push(vec![st(1, 1), SK::Unsub]);
+            // caller-chosen packet ids that collide: the refused request must leave nothing on the wire
+            sets.push(vec![SK::Q1Id(5), SK::UnsubId(5), SK::Q0]);
+            sets.push(vec![SK::Q1Id(5), SK::SubId(5), SK::Q0]);
+            sets.push(vec![SK::SubId(5), SK::UnsubId(5)]);
         }
         if tier == Tier::Thorough {
             sets.push(vec![st(0, 1), SK::Q0, SK::Q1]);
@@ -80,7 +84,7 @@ pub fn run(tier: Tier) -> i32 {
     for (i, c) in configs(tier).iter().enumerate() {
         ck.explore::<Out>("outbound", i, c, &ecfg);
     }
-    ck.rule = "per role: 2-3 application operations over {QoS 0/1/2 sends, QoS 1 through the non-blocking API, streamed sends (stream_at_most_once / stream_at_least_once of 6 bytes with chunk plans: exact in one, exact in two, second chunk one byte too long, half then dropped), subscribe/unsubscribe, sends that must fail locally: 65536-byte topic, 65536-byte property, a failure after a field larger than a buffer page, over the peer's maximum packet size, packet id in use, over-long filter}; every chunk is released by an explorer event so other sends, peer acknowledgements, one inbound PINGREQ / QoS 1 PUBLISH (dispatcher response), an application close(), or a peer fault that ends the connection on an error path (undecodable bytes, protocol-violating packet, DISCONNECT) interleave everywhere; oracle: the wire parses with the independent decoder as whole packets (a truncated tail only as the streamed PUBLISH of an aborted transport), Ok <-> exactly one packet, local Err <-> no bytes, streamed payload = accepted chunks with the declared size".into();
+    ck.rule = "per role: 2-3 application operations over {QoS 0/1/2 sends, QoS 1 through the non-blocking API, streamed sends (stream_at_most_once / stream_at_least_once of 6 bytes with chunk plans: exact in one, exact in two, second chunk one byte too long, half then dropped), subscribe/unsubscribe, sends that must fail locally: 65536-byte topic, 65536-byte property, a failure after a field larger than a buffer page, over the peer's maximum packet size, packet id in use (publish, subscribe, unsubscribe with caller-chosen ids), over-long filter}; every chunk is released by an explorer event so other sends, peer acknowledgements, one inbound PINGREQ / QoS 1 PUBLISH (dispatcher response), an application close(), or a peer fault that ends the connection on an error path (undecodable bytes, protocol-violating packet, DISCONNECT) interleave everywhere; oracle: the wire parses with the independent decoder as whole packets (a truncated tail only as the streamed PUBLISH of an aborted transport), Ok <-> exactly one packet, local Err <-> no bytes, streamed payload = accepted chunks with the declared size".into();
     ck.assumptions = vec![
         "FIFO task order of ntex-rt; nondeterminism = timing of environment events (DESIGN 2.4)".into(),
         "chunk bytes 0xD0.. and topic tags identify which operation a wire packet belongs to".into(),
